@@ -120,7 +120,11 @@ theorem rrLoop_attr (s : St) (x : String) (fuel : Nat) (i : Int) : AttrOnly s (s
     split
     · exact AttrOnly.refl s
     · split
-      · exact AttrOnly.refl s
+      · split
+        · exact AttrOnly.refl s
+        · split
+          · exact AttrOnly.refl s
+          · exact ih _ _
       · simp only []
         split
         · split
